@@ -192,6 +192,203 @@ theorem C18_reviewed_shapes : Gen.shape_Amount_to_signed = true ∧ Gen.shape_Si
     Gen.shape_SignedAmount_positive_sub = true ∧ Gen.shape_SignedAmount_is_negative = true ∧
     Gen.shape_SignedAmount_max_value = true := by decide
 
+/-! ## Added: totality for the signed type, closed forms, operators stated directly against `exact`, and a
+characterisation of `exact .div` / `exact .rem` that does not mention `Int.tdiv` / `Int.tmod` -/
+
+/-- signed: every checked operation is modelled and either returns a value or refuses (the "nothing otherwise" half:
+together with `C18_checked_signed_iff`, whenever no `r` satisfies the right-hand side the result is `some none`, i.e. `None`) -/
+theorem C18_checked_signed_total (op : Arith) (a b : Int) : ∃ r, amtChecked true op a b = some r := by
+  cases op <;> simp [amtChecked, genChecked, Gen.s_checked_add, Gen.s_checked_sub, Gen.s_checked_mul, Gen.s_checked_div, Gen.s_checked_rem]
+
+/-- the excluded operand pair of the signed remainder (the recorded known finding) -/
+def remMinNeg1 (signed : Bool) (op : Arith) (a b : Int) : Prop := signed = true ∧ op = .rem ∧ a = TyI64.lo ∧ b = -1
+
+/-- **closed form of the checked operations, both types**: the exact result when it is representable and the divisor is
+non-zero, `None` otherwise — as one equation (at every operand pair except signed `MIN % -1`) -/
+theorem C18_checked_eq (signed : Bool) (op : Arith) (a b : Int) (ha : (tyOf signed).fits a) (hb : (tyOf signed).fits b)
+    (hx : ¬ remMinNeg1 signed op a b) :
+    amtChecked signed op a b =
+      some (if (tyOf signed).fits (exact op a b) ∧ (needsDivisor op = true → b ≠ 0) then some (exact op a b) else none) := by
+  cases signed with
+  | false =>
+    simp only [tyOf, Bool.false_eq_true, if_false] at ha hb ⊢
+    obtain ⟨r', hr'⟩ := C18_checked_unsigned_total op a b
+    rw [hr']
+    cases r' with
+    | none =>
+      by_cases hc : TyU64.fits (exact op a b) ∧ (needsDivisor op = true → b ≠ 0)
+      · have := (C18_checked_unsigned_iff op a b ha hb (exact op a b)).2 ⟨rfl, hc.1, hc.2⟩
+        rw [hr'] at this; cases this
+      · rw [if_neg hc]
+    | some r =>
+      obtain ⟨h1, h2, h3⟩ := (C18_checked_unsigned_iff op a b ha hb r).1 hr'
+      subst h1
+      rw [if_pos ⟨h2, h3⟩]
+  | true =>
+    simp only [tyOf, if_true] at ha hb ⊢
+    have hx' : ¬ (op = .rem ∧ a = TyI64.lo ∧ b = -1) := fun h => hx ⟨rfl, h⟩
+    obtain ⟨r', hr'⟩ := C18_checked_signed_total op a b
+    rw [hr']
+    cases r' with
+    | none =>
+      by_cases hc : TyI64.fits (exact op a b) ∧ (needsDivisor op = true → b ≠ 0)
+      · have := (C18_checked_signed_iff op a b ha hb (exact op a b) hx').2 ⟨rfl, hc.1, hc.2⟩
+        rw [hr'] at this; cases this
+      · rw [if_neg hc]
+    | some r =>
+      obtain ⟨h1, h2, h3⟩ := (C18_checked_signed_iff op a b ha hb r hx').1 hr'
+      subst h1
+      rw [if_pos ⟨h2, h3⟩]
+
+/-- a checked operation refuses exactly when the exact result is not representable or the divisor is zero -/
+theorem C18_checked_none_iff (signed : Bool) (op : Arith) (a b : Int) (ha : (tyOf signed).fits a) (hb : (tyOf signed).fits b)
+    (hx : ¬ remMinNeg1 signed op a b) :
+    amtChecked signed op a b = some none ↔ ¬ ((tyOf signed).fits (exact op a b) ∧ (needsDivisor op = true → b ≠ 0)) := by
+  rw [C18_checked_eq signed op a b ha hb hx]
+  by_cases hc : (tyOf signed).fits (exact op a b) ∧ (needsDivisor op = true → b ≠ 0)
+  · rw [if_pos hc]; exact ⟨fun h => (by cases h), fun h => absurd hc h⟩
+  · rw [if_neg hc]; exact ⟨fun _ => hc, fun _ => rfl⟩
+
+/-- the operator and assigning forms are modelled for every operator of both types (no `unmodelled` row in `Gen`) -/
+theorem C18_operator_total (signed : Bool) (op : Arith) (a b : Int) :
+    (∃ r, amtOperator signed op a b = some r) ∧ (∃ r, amtAssign signed op a b = some r) := by
+  have h : ∃ r, amtOperator signed op a b = some r := by
+    cases signed <;> cases op <;>
+      simp [amtOperator, genOperator, amtChecked, genChecked, Gen.u_op_add, Gen.u_op_sub, Gen.u_op_mul, Gen.u_op_div, Gen.u_op_rem,
+        Gen.s_op_add, Gen.s_op_sub, Gen.s_op_mul, Gen.s_op_div, Gen.s_op_rem, Gen.u_checked_add, Gen.u_checked_sub, Gen.u_checked_mul,
+        Gen.u_checked_div, Gen.u_checked_rem, Gen.s_checked_add, Gen.s_checked_sub, Gen.s_checked_mul, Gen.s_checked_div, Gen.s_checked_rem]
+  exact ⟨h, by rw [C18_assign_agrees]; exact h⟩
+
+/-- each operator `expect`s the checked method of the SAME operation (the content of the ten generated `*_op_*` rows) -/
+theorem C18_operator_uses_own_checked (signed : Bool) (op : Arith) : genOperator signed op = some op ∧ genAssign signed op = some op := by
+  cases signed <;> cases op <;> exact ⟨rfl, rfl⟩
+
+/-- **operators, stated directly against the exact integer result**: `a <op> b` evaluates to the exact result when it is
+representable and the divisor is non-zero and panics otherwise (at every operand pair except signed `MIN % -1`) -/
+theorem C18_operator_exact (signed : Bool) (op : Arith) (a b : Int) (ha : (tyOf signed).fits a) (hb : (tyOf signed).fits b)
+    (hx : ¬ remMinNeg1 signed op a b) :
+    amtOperator signed op a b =
+      some (if (tyOf signed).fits (exact op a b) ∧ (needsDivisor op = true → b ≠ 0) then .val (exact op a b) else .panic) := by
+  have h : amtOperator signed op a b = (amtChecked signed op a b).map fun r => match r with | some v => .val v | none => .panic := by
+    simp only [amtOperator, (C18_operator_uses_own_checked signed op).1]; rfl
+  rw [h, C18_checked_eq signed op a b ha hb hx]
+  by_cases hc : (tyOf signed).fits (exact op a b) ∧ (needsDivisor op = true → b ≠ 0)
+  · rw [if_pos hc, if_pos hc]; rfl
+  · rw [if_neg hc, if_neg hc]; rfl
+
+/-- the same for the assigning forms `a <op>= b` -/
+theorem C18_assign_exact (signed : Bool) (op : Arith) (a b : Int) (ha : (tyOf signed).fits a) (hb : (tyOf signed).fits b)
+    (hx : ¬ remMinNeg1 signed op a b) :
+    amtAssign signed op a b =
+      some (if (tyOf signed).fits (exact op a b) ∧ (needsDivisor op = true → b ≠ 0) then .val (exact op a b) else .panic) := by
+  rw [C18_assign_agrees]; exact C18_operator_exact signed op a b ha hb hx
+
+/-- **never wraps**: whatever a checked / operator / assigning form returns lies in the type's range and IS the exact
+integer result — there is no operand pair (the excluded one included) on which a value other than the exact one comes back -/
+theorem C18_never_wraps (signed : Bool) (op : Arith) (a b : Int) (ha : (tyOf signed).fits a) (hb : (tyOf signed).fits b) (r : Int) :
+    (amtChecked signed op a b = some (some r) → r = exact op a b ∧ (tyOf signed).fits r) ∧
+    (amtOperator signed op a b = some (.val r) → r = exact op a b ∧ (tyOf signed).fits r) ∧
+    (amtAssign signed op a b = some (.val r) → r = exact op a b ∧ (tyOf signed).fits r) := by
+  have hc : amtChecked signed op a b = some (some r) → r = exact op a b ∧ (tyOf signed).fits r := by
+    intro h
+    by_cases hx : remMinNeg1 signed op a b
+    · obtain ⟨rfl, rfl, rfl, rfl⟩ := hx
+      rw [C18_rem_min_neg1.1] at h; cases h
+    · rw [C18_checked_eq signed op a b ha hb hx] at h
+      by_cases hcnd : (tyOf signed).fits (exact op a b) ∧ (needsDivisor op = true → b ≠ 0)
+      · rw [if_pos hcnd] at h; cases h; exact ⟨rfl, hcnd.1⟩
+      · rw [if_neg hcnd] at h; cases h
+  have ho : amtOperator signed op a b = some (.val r) → r = exact op a b ∧ (tyOf signed).fits r :=
+    fun h => hc (((C18_operator_panics_iff signed op a b).2 r).1 h)
+  exact ⟨hc, ho, fun h => ho (by rw [← C18_assign_agrees]; exact h)⟩
+
+/-- **what `exact .div` / `exact .rem` are**, without reference to `Int.tdiv` / `Int.tmod` (which the model of
+`checked_div` / `checked_rem`, the oracle and `exact` would otherwise share as an unexamined convention): for a non-zero
+divisor, quotient and remainder satisfy `a = q·b + r`, `|r| < |b|`, and `r` has the sign of the dividend (rounding
+toward zero — the semantics of Rust's `/` and `%` on integers) -/
+theorem C18_exact_div_rem (a b : Int) (hb : b ≠ 0) :
+    a = exact .div a b * b + exact .rem a b ∧ (exact .rem a b).natAbs < b.natAbs ∧
+    (0 ≤ a → 0 ≤ exact .rem a b) ∧ (a ≤ 0 → exact .rem a b ≤ 0) := by
+  simp only [exact]
+  refine ⟨?_, ?_, ?_, ?_⟩
+  · have := Int.mul_tdiv_add_tmod a b
+    rw [Int.mul_comm] at this; exact this.symm
+  · rw [Int.natAbs_tmod]; exact Nat.mod_lt _ (by omega)
+  · intro h; exact Int.tmod_nonneg b h
+  · intro h
+    have h1 : 0 ≤ (-a).tmod b := Int.tmod_nonneg b (by omega)
+    rw [Int.neg_tmod] at h1; omega
+
+/-- … and these four conditions determine quotient and remainder uniquely, so the previous theorem is a definition of
+truncating division, not merely a consequence of it -/
+theorem C18_exact_div_rem_unique (a b q r : Int) (hb : b ≠ 0) (h1 : a = q * b + r) (h2 : r.natAbs < b.natAbs)
+    (h3 : 0 ≤ a → 0 ≤ r) (h4 : a ≤ 0 → r ≤ 0) : q = exact .div a b ∧ r = exact .rem a b := by
+  obtain ⟨e1, e2, e3, e4⟩ := C18_exact_div_rem a b hb
+  generalize exact .div a b = q' at *
+  generalize exact .rem a b = r' at *
+  -- (q - q') * b = r' - r with |r' - r| < |b| (same sign) forces q = q'
+  have hd : (q - q') * b = r' - r := by
+    have : q * b + r = q' * b + r' := by rw [← h1, ← e1]
+    rw [Int.sub_mul]; omega
+  have hlt : (r' - r).natAbs < b.natAbs := by
+    rcases Int.le_total 0 a with ha | ha
+    · have := h3 ha; have := e3 ha; omega
+    · have := h4 ha; have := e4 ha; omega
+  have hq : q - q' = 0 := by
+    apply Classical.byContradiction; intro hne
+    have h5 : ((q - q') * b).natAbs = (q - q').natAbs * b.natAbs := Int.natAbs_mul _ _
+    rw [hd] at h5
+    have h6 : 1 ≤ (q - q').natAbs := by omega
+    have h7 : b.natAbs ≤ (q - q').natAbs * b.natAbs := Nat.le_mul_of_pos_left _ h6
+    omega
+  have hq' : q = q' := by omega
+  subst hq'
+  refine ⟨rfl, ?_⟩
+  have : (q - q) * b = 0 := by simp
+  omega
+
+theorem i64_natAbs_fits (a : Int) (ha : TyI64.fits a) : TyI64.fits (a.natAbs : Int) ↔ a ≠ TyI64.lo := by
+  unfold IntTy.fits TyI64 at *; simp only at *; omega
+
+/-- `checked_abs` is exact or refuses: `|a|` iff it is representable, i.e. at every i64 except `MIN`, where it is `None` -/
+theorem C18_checked_abs (a : Int) (ha : TyI64.fits a) (r : Int) :
+    (checkedAbs a = some r ↔ (r = (a.natAbs : Int) ∧ TyI64.fits (a.natAbs : Int))) ∧ (checkedAbs a = none ↔ a = TyI64.lo) := by
+  have hf := i64_natAbs_fits a ha
+  simp only [checkedAbs, IntTy.chk]
+  by_cases h : TyI64.fits (a.natAbs : Int)
+  · rw [if_pos h]
+    refine ⟨⟨fun e => ⟨(Option.some.inj e).symm, h⟩, fun e => (by rw [e.1])⟩, ⟨fun e => (by cases e), fun e => absurd e (hf.1 h)⟩⟩
+  · rw [if_neg h]
+    refine ⟨⟨fun e => (by cases e), fun e => absurd e.2 h⟩, ⟨fun _ => ?_, fun _ => rfl⟩⟩
+    apply Classical.byContradiction; intro hne; exact h (hf.2 hne)
+
+/-- `abs` in a build with overflow checks (what the harness observes): `|a|`, or a panic exactly at `MIN`; and what the same
+body returns without overflow checks at `MIN`: `MIN` itself — a wrapped, negative "absolute value" (NOT covered by the list of
+operations of the property statement; recorded in the report of this group, not a theorem about the property) -/
+theorem C18_abs_model (a : Int) (ha : TyI64.fits a) :
+    (absOp a = .panic ↔ a = TyI64.lo) ∧ (a ≠ TyI64.lo → absOp a = .val (a.natAbs : Int)) ∧ absUnchecked TyI64.lo = TyI64.lo := by
+  have hfit : a ≠ TyI64.lo → TyI64.fits (a.natAbs : Int) := (i64_natAbs_fits a ha).2
+  refine ⟨?_, ?_, by decide⟩
+  · constructor
+    · intro h
+      apply Classical.byContradiction; intro hne
+      simp [absOp, checkedAbs, IntTy.chk, hfit hne] at h
+    · rintro rfl; decide
+  · intro hne; simp [absOp, checkedAbs, IntTy.chk, hfit hne]
+
+/-- `signum` is the sign of the integer -/
+theorem C18_signum (a : Int) : signum a = Int.sign a := by
+  unfold signum
+  rcases Int.lt_trichotomy a 0 with h | h | h
+  · rw [if_neg (by omega), if_pos h, Int.sign_eq_neg_one_of_neg h]
+  · subst h; rfl
+  · rw [if_pos h, Int.sign_eq_one_of_pos h]
+
+example : ¬ remMinNeg1 false .rem 5 3 := by simp [remMinNeg1]
+example : amtOperator true .mul (2^62) 2 = some .panic := by decide
+example : amtOperator false .sub 3 5 = some .panic := by decide
+example : amtAssign true .div (-7) 2 = some (.val (-3)) := by decide
+
 /- a swapped std method is representable and refutes the statement (test of the formulation, not a theorem about /repo) -/
 example : ¬ (∀ a b r, TyU64.fits a → TyU64.fits b →
     (StdOp.wrapping_add.eval TyU64 a b = some r ↔ r = a + b ∧ TyU64.fits r)) := by
